@@ -163,6 +163,9 @@ func recheck(oracle string, ops, res []string) (bool, string) {
 				if r1 != (a1 || b1) {
 					return true, fmt.Sprintf("union: v=%s in A=%v in B=%v in A∪B=%v (result %s)", v, a1, b1, r1, c.r)
 				}
+				if r2 != (a2 || b2) {
+					return true, fmt.Sprintf("union (prerelease-inclusive): v=%s in A=%v in B=%v in A∪B=%v (result %s)", v, a2, b2, r2, c.r)
+				}
 			} else {
 				if !pv.IsPrerelease() && r1 != (a1 && b1) {
 					return true, fmt.Sprintf("intersection: release v=%s in A=%v in B=%v in A∩B=%v (result %s)", v, a1, b1, r1, c.r)
@@ -195,7 +198,7 @@ func recheck(oracle string, ops, res []string) (bool, string) {
 	return false, ""
 }
 
-func hasPreBound(set string) bool {
+func hasPreBoundUnused(set string) bool {
 	for _, x := range bounds(set) {
 		if strings.Contains(strings.TrimPrefix(x, "v"), "-") {
 			return true
@@ -206,23 +209,127 @@ func hasPreBound(set string) bool {
 
 func nspans(set string) int { return strings.Count(set, ",") + 1 }
 
-// classify mirrors the hypotheses of the partial theorems (DESIGN C09):
-//   F-C09-skip: some operand has a span with a prerelease bound and more than one span is involved;
-//   F-C09-succ: prerelease-inclusive intersection, v is a prerelease at a successor-merge seam.
+// succOf is inc(fill(a,0)) of interval.go for a release bound a (up to three numbers, "∞"
+// allowed): the first ∞ component carries into the one before it; "" if a has a prerelease.
+func succOf(v string) string {
+	head := ""
+	if strings.HasPrefix(v, "v") {
+		head, v = "v", v[1:]
+	}
+	if strings.ContainsAny(v, "-+") {
+		return ""
+	}
+	p := strings.Split(v, ".")
+	if len(p) > 3 {
+		return ""
+	}
+	for len(p) < 3 {
+		p = append(p, "0")
+	}
+	w := -1
+	for i, x := range p {
+		if x == "∞" {
+			w = i
+			break
+		}
+	}
+	bump := func(x string) (string, bool) {
+		var n int
+		if _, err := fmt.Sscan(x, &n); err != nil {
+			return "", false
+		}
+		return fmt.Sprint(n + 1), true
+	}
+	switch w {
+	case -1:
+		x, ok := bump(p[2])
+		if !ok {
+			return ""
+		}
+		p[2] = x
+	case 0:
+		return ""
+	default:
+		x, ok := bump(p[w-1])
+		if !ok {
+			return ""
+		}
+		p[w-1] = x
+		for i := w; i < 3; i++ {
+			p[i] = "0"
+		}
+	}
+	return head + strings.Join(p, ".")
+}
+
+// inSeam is the negation of the hypothesis NoSeam of the partial theorems
+// (Props.C09.union_law_partial / intersect_law_partial): v lies strictly between two release
+// bounds a < b of the operands with b <= succ(a).
+func inSeam(sys semver.System, v string, sets ...string) bool {
+	var bs []string
+	for _, s := range sets {
+		bs = append(bs, bounds(s)...)
+	}
+	for _, a := range bs {
+		sa := succOf(a)
+		if sa == "" {
+			continue
+		}
+		for _, b := range bs {
+			if strings.ContainsAny(strings.TrimPrefix(b, "v"), "-∞") {
+				continue
+			}
+			// a < b <= succ(a) and a < v < b; a may contain ∞ components, so compare b and v with succ(a):
+			// a < x holds for every x >= succ(a) and for prereleases of succ(a) when a's ∞ tail is below them.
+			if sys.Compare(b, sa) == 0 && sys.Compare(v, b) < 0 && strings.HasPrefix(strings.TrimPrefix(v, "v"), strings.TrimPrefix(b, "v")+"-") {
+				return true
+			}
+		}
+	}
+	return false
+}
+
+var lawV = regexp.MustCompile(`v=(\S+) in A=`)
+
+// classify mirrors the hypotheses of the partial theorems (Props/C09.lean):
+//   F-C09-succ:      prerelease-inclusive mode, the candidate lies in a successor seam (¬NoSeam);
+//   F-C09-pre-merge: release mode, the candidate is a prerelease (the theorems union_law_release /
+//                    intersect_law_release are for release candidates: merging spans loses the
+//                    "shares its numbers with a prerelease bound" admission).
 func classify(oracle string, ops, res []string) string {
+	if oracle != "law" {
+		return ""
+	}
 	c := parseOp(ops[0], res[0])
-	ca, e1 := c.sys.ParseConstraint(c.a)
-	cb, e2 := c.sys.ParseConstraint(c.b)
+	pc := func(t string) (*semver.Constraint, error) {
+		if strings.HasPrefix(t, "{") {
+			return c.sys.ParseSetConstraint(t)
+		}
+		return c.sys.ParseConstraint(t)
+	}
+	ca, e1 := pc(c.a)
+	cb, e2 := pc(c.b)
 	if e1 != nil || e2 != nil {
 		return ""
 	}
-	sa, sb := ca.Set().String(), cb.Set().String()
 	_, detail := recheck(oracle, ops, res)
-	if oracle == "law" && strings.HasPrefix(detail, "intersection (prerelease-inclusive)") {
-		return "F-C09-succ"
+	m := lawV.FindStringSubmatch(detail)
+	if m == nil {
+		return ""
 	}
-	if (hasPreBound(sa) || hasPreBound(sb)) && (nspans(sa) > 1 || nspans(sb) > 1 || oracle != "law" || c.op == "union") {
-		return "F-C09-skip"
+	v := m[1]
+	pv, err := c.sys.Parse(v)
+	if err != nil {
+		return ""
+	}
+	if strings.HasPrefix(detail, "intersection (prerelease-inclusive)") || strings.HasPrefix(detail, "union (prerelease-inclusive)") {
+		if inSeam(c.sys, v, ca.Set().String(), cb.Set().String()) {
+			return "F-C09-succ"
+		}
+		return ""
+	}
+	if pv.IsPrerelease() {
+		return "F-C09-pre-merge"
 	}
 	return ""
 }
@@ -236,12 +343,78 @@ func permuteAlternatives(c *fw.Ctx, s string) string {
 	return strings.Join(parts, "||")
 }
 
+// intervalFamily: small-scope exhaustive stream. For a triple x < y < z every interval with
+// end points among them and every open/closed flag combination (written with the operators
+// the grammar has), all ordered pairs, both operations: nested, abutting, overlapping and
+// shared-end-point spans with every flag combination.
+func intervalFamily(c *fw.Ctx, sys semver.System, xs []string) {
+	if sys == semver.Go {
+		return // Go constraints are single versions
+	}
+	var ivs []string
+	sep := " "
+	if sys == semver.Cargo {
+		sep = ","
+	}
+	for i := 0; i < len(xs); i++ {
+		ivs = append(ivs, "="+xs[i])
+		for j := i + 1; j < len(xs); j++ {
+			for _, lo := range []string{">=", ">"} {
+				for _, hi := range []string{"<=", "<"} {
+					ivs = append(ivs, lo+xs[i]+sep+hi+xs[j])
+				}
+			}
+		}
+	}
+	// the same intervals in set notation (open lower bounds on release versions are only
+	// expressible this way in the SemVer systems)
+	for i := 0; i < len(xs); i++ {
+		for j := i + 1; j < len(xs); j++ {
+			for _, lo := range []string{"[", "("} {
+				for _, hi := range []string{"]", ")"} {
+					ivs = append(ivs, "{"+lo+xs[i]+":"+xs[j]+hi+"}")
+				}
+			}
+		}
+	}
+	probes := append([]string(nil), xs...)
+	for _, x := range xs {
+		if !strings.Contains(x, "-") {
+			probes = append(probes, x+"-a")
+		} else {
+			probes = append(probes, x[:strings.Index(x, "-")], x+".1")
+		}
+	}
+	for _, a := range ivs {
+		for _, b := range ivs {
+			for _, op := range []string{"union", "inter"} {
+				i1, _ := c.Op(opLine(op, sys, a, b, probes))
+				c.Check("law", i1)
+				c.Count(sys.String() + ":family:" + op)
+			}
+		}
+	}
+}
+
 func run(c *fw.Ctx) {
 	n := c.N(1200, 40000)
 	for _, sys := range systems {
 		pool := semverops.ProbeVersions(sys)
+		triples := [][]string{{"1.0.0", "1.5.0", "2.0.0"}, {"1.0.0-a", "1.5.0-a", "2.0.0-a"}, {"1.0.0", "1.0.1", "1.0.2"}, {"0.0.0", "0.0.1", "0.1.0"}}
+		if c.Thor {
+			triples = append(triples, []string{"1.0.0-a", "1.0.0", "1.0.1-a"}, []string{"1.2.3-a", "1.2.3-b", "1.2.3"}, []string{"0.9.9", "1.0.0-0", "1.0.0"}, []string{"1.0.0", "2.0.0", "3.0.0"})
+		}
+		for _, t := range triples {
+			intervalFamily(c, sys, t)
+		}
 		for it := 0; it < n; it++ {
-			A, B := semverops.GenConstraint(c.Rng, sys), semverops.GenConstraint(c.Rng, sys)
+			A := semverops.GenConstraint(c.Rng, sys)
+			if it%2 == 1 {
+				// related pair: B reuses A's operand versions (shared end points, nesting, abutment)
+				semverops.OperandPool = semverops.Operands(A)
+			}
+			B := semverops.GenConstraint(c.Rng, sys)
+			semverops.OperandPool = nil
 			ca, e1 := sys.ParseConstraint(A)
 			cb, e2 := sys.ParseConstraint(B)
 			ia, ra := c.Opf("C09 cparse %s %s", sys, fw.Hx(A))
